@@ -24,7 +24,7 @@ LEVEL = 'proof'
 THEOREMS = [
     'CC.C19_dup_id_network', 'CC.C19_dup_id', 'CC.C19_dup_id_positions', 'CC.C19_dup_id_exception',
     'CC.C19_floating_ground', 'CC.C19_floating_ground_circuit', 'CC.C19_multi_ground', 'CC.C19_multi_ground_exception',
-    'CC.C19_negative_table', 'CC.C19_guards_are_sign_guards', 'CC.C19_rated_voltage_positive', 'CC.C19_only_rated_voltage_strict',
+    'CC.C19_negative_table', 'CC.C19_guards_are_sign_guards', 'CC.C19_rated_voltage_positive', 'CC.C19_fundamental_positive', 'CC.C19_only_rated_voltage_strict',
     'CC.C19_negative', 'CC.C19_negative_first', 'CC.C19_zero_passes_guards', 'CC.C19_zero_accepted',
     'CC.C19_any_bad_entry_rejects', 'CC.C19_first_bad_entry', 'CC.C19_unknown_kind', 'CC.C19_missing_field',
     'CC.C19_missing_value_key', 'CC.bindParams_missing', 'CC.bindParams_lookup',
@@ -187,12 +187,49 @@ def check_circuits(ctx, out):
         out.evaluations += 1; out.count('fault:circuit_floating_ground')
         if res[0] == 'ok':
             out.count('floating_ground_accepted_by_Circuit_constructor')
-            for cls in SOLUTION_CLASSES[:2] if ctx.quick else SOLUTION_CLASSES:
+            for cls in SOLUTION_CLASSES:
                 r2 = attempt(lambda: make_solution(cls, res[1]))
                 out.evaluations += 1
                 if expect_raises(out, dict(op='solution_of_floating_ground', cls=cls, fault='floating_ground'),
                                  f'{cls} of a circuit whose ground touches no component', dict(components=[f'{c.id}:{c.type}' for c in cl]), r2):
                     out.nontrivial(('circuit_float', cls))
+
+FAMILIES = ['sources', 'passive', 'complex_only']
+
+def check_analysis_faults(ctx, out):
+    """faults that `Circuit(...)` itself does not see — a ground on a node no component touches, a component of a
+    type no translator knows (built directly) — must be rejected by EVERY solution class, also when the circuit
+    has no frequency component at all (passive only, complex sources only)"""
+    from CircuitCalculator.Circuit import circuit as cc, components as ccp
+    rng = ctx.rng('analysis_faults')
+    for family in FAMILIES:
+        for rep in range(2 if ctx.quick else 12):
+            descs, w_max = query_circuit(rng, family)
+            comps = [gc.build(d) for d in descs if d['fn'] != 'ground']
+            for fault in ('floating_ground', 'unknown_type'):
+                for pos in ({0, len(comps) // 2, len(comps)} if ctx.quick else range(len(comps) + 1)):
+                    cl = list(comps)
+                    if fault == 'floating_ground':
+                        cl.insert(pos, ccp.ground(id='gF', nodes=('__nowhere__',)))
+                    else:
+                        cl.insert(pos, ccp.Component(type=rng.choice(['nope', '', 'Resistor']), id='X', nodes=(comps[0].nodes[0], comps[0].nodes[-1]), value={}))
+                        cl.append(ccp.ground(id='gnd', nodes=(comps[0].nodes[0],)))
+                    res = attempt(lambda: cc.Circuit(cl))
+                    out.evaluations += 1; out.count(f'fault:analysis_{fault}:{family}')
+                    inp = dict(components=[f'{c.id}:{c.type}({",".join(c.nodes)})' for c in cl], family=family, position=pos)
+                    if res[0] != 'ok':
+                        out.nontrivial(('analysis_fault_rejected_at_construction', fault)); continue
+                    for cls in SOLUTION_CLASSES:
+                        r2 = attempt(lambda: make_solution(cls, res[1], w_max))
+                        out.evaluations += 1
+                        if expect_raises(out, dict(op='solution_of_' + fault, cls=cls, fault=fault, family=family),
+                                         f'{cls} of a circuit with fault {fault} ({family})', inp, r2):
+                            out.nontrivial(('analysis_fault', fault, cls, family))
+                    if ctx.driver is not None and fault == 'unknown_type':     # model: the conversion raises KeyError
+                        trig, harm = gc.params_for(cl, 0.0)
+                        m = ctx.driver.call('cc_transform', components=[gc.comp_json(c) for c in cl], w='0', wres=core.q(1e-3), trig=trig, harm=harm)
+                        r3 = attempt(lambda: cc.transform_circuit(res[1], 0.0))
+                        agree_err(out, 'cc_transform', inp, r3, m); out.traces_validated += 1
 
 # --------------------------------------------------------------------------- C. constructors
 
@@ -240,15 +277,12 @@ def check_constructors(ctx, out):
                                               f'{fn} with V_ref = 0 raises {type(r[1]).__name__}', inp)
                             out.nontrivial(('zero_rated_voltage', fn))
                     elif p == 'w' and fn.startswith('periodic'):
-                        # a periodic source without a fundamental: may be rejected; if accepted it must be analysable
-                        if r[0] == 'ok':
-                            from CircuitCalculator.Circuit import transformers as tr
-                            r3 = attempt(lambda: tr.transformers[fn](r[1], 1.0, 1e-3))
-                            if r3[0] != 'ok':
-                                out.spec_fail(dict(op='construct', ctor=fn, param=p, fault='zero', symptom='accepted_but_untranslatable', exc=gc.tag(r3[1])),
-                                              f'{fn} accepts w = 0 but the component cannot be translated ({type(r3[1]).__name__})', inp)
-                            else:
-                                out.nontrivial(('zero', fn, p))
+                        # a periodic source needs a finite period: a fundamental of 0 is a fault (for DC / AC sources w = 0 stays legal)
+                        if expect_raises(out, dict(op='construct', ctor=fn, param=p, fault='zero_fundamental'), f'{fn} with w = 0', inp, r):
+                            if type(r[1]).__name__ != 'ValueError':
+                                out.spec_fail(dict(op='construct', ctor=fn, param=p, fault='zero_fundamental', symptom='wrong_exception'),
+                                              f'{fn} with w = 0 raises {type(r[1]).__name__}', inp)
+                            out.nontrivial(('zero_fundamental', fn))
                     else:
                         if r[0] != 'ok':
                             out.spec_fail(dict(op='construct', ctor=fn, param=p, fault='zero', symptom='rejected'), f'{fn} rejects {p} = 0', inp, impl=repr(r[1]))
@@ -390,6 +424,7 @@ def check_load_network(ctx, out):
         if kind == 'resistor': base['R'] = v
         elif kind == 'conductor': base['G'] = v
         elif kind == 'impedance': base['Z'] = cx(complex(v, 1.0))
+        elif kind == 'admittance': base['Y'] = cx(complex(v, -0.5))
         elif kind == 'linear_current_source': base.update(I=cx(complex(v, 0)), Y=cx(complex(0.5, 0)))
         elif kind == 'current_source': base['I'] = cx(complex(v, 0))
         elif kind == 'real_current_source': base['I'] = v
@@ -397,7 +432,7 @@ def check_load_network(ctx, out):
         elif kind == 'voltage_source': base['V'] = cx(complex(v, 0))
         elif kind == 'real_voltage_source': base['V'] = v
         return base
-    kinds = [k for k in loaders.network_branch_translators if k != 'admittance']   # the admittance loader cannot load (C17)
+    kinds = list(loaders.network_branch_translators)
     n_cases = 25 if ctx.quick else 500
     for _ in range(n_cases):
         n = rng.randint(1, 12) if ctx.quick else rng.randint(1, 5)
@@ -563,65 +598,82 @@ def check_queries(ctx, out):
 
 # --------------------------------------------------------------------------- G. create_schematic
 
+SCHEM_SOLUTIONS = {'dc': {'type': 'dc', 'voltages': [{'name': 'R'}]}, 'absent': None, 'unknown': {'type': 'no_such_solution'},
+                   'empty': {}}
+
 def check_schematic(ctx, out):
-    """declarative front end: implementation side only"""
+    """declarative front end: implementation side only.  Every fault class × every position × the description with a
+    DC solution section, without a solution section, with an unknown solution type, with an empty one"""
     from CircuitCalculator.SimpleSimulation import schematic as sch, errors
-    base = {'unit': 7, 'elements': [
+    elements = [
         {'type': 'voltage_source', 'name': 'V', 'V': 1, 'direction': 'up', 'reverse': True},
         {'type': 'resistor', 'name': 'R', 'R': 2, 'direction': 'right'},
         {'type': 'lamp', 'name': 'La', 'P_ref': 2, 'V_ref': 1, 'direction': 'right'},
         {'type': 'line', 'direction': 'down'},
         {'type': 'line', 'direction': 'left'},
         {'type': 'line', 'direction': 'left'},
-        {'type': 'ground'}], 'solution': {'type': 'dc', 'voltages': [{'name': 'R'}]}}
+        {'type': 'ground'}]
     import io, contextlib
     def run(data):
         with contextlib.redirect_stdout(io.StringIO()):
             return sch.create_schematic(data)
-    r = attempt(lambda: run(copy.deepcopy(base)))
-    out.evaluations += 1
-    if r[0] != 'ok':
-        out.notes.append(f'create_schematic base case does not run here: {r[1]!r}'); return
     required = {'voltage_source': 'V', 'resistor': 'R', 'lamp': 'P_ref'}
-    n = len(base['elements'])
-    for pos in range(n):
-        e = base['elements'][pos]
-        faults = [('unknown_kind', dict(e, type='nope'), 'UnknownCircuitElement'),
-                  ('missing_type', {k: v for k, v in e.items() if k != 'type'}, 'MissingArgument')]
-        if e['type'] in required:
-            k = required[e['type']]
-            faults.append(('missing_value_key', {kk: vv for kk, vv in e.items() if kk != k}, 'MissingArgument'))
-        if e['type'] == 'resistor':
-            faults.append(('negative', dict(e, R=-2), 'IllegalElementValue'))
-        for fault, bad, exc in faults:
-            data = copy.deepcopy(base); data['elements'][pos] = bad
+    named_negative = {'resistor': ['R'], 'lamp': ['P_ref', 'V_ref']}       # every named quantity of the base description
+    for sol_key, sol_section in SCHEM_SOLUTIONS.items():
+        base = {'unit': 7, 'elements': copy.deepcopy(elements)}
+        if sol_section is not None:
+            base['solution'] = copy.deepcopy(sol_section)
+        section = 'dc' if sol_key == 'dc' else ('absent' if sol_key in ('absent', 'empty') else 'unknown')
+        r = attempt(lambda: run(copy.deepcopy(base)))
+        out.evaluations += 1
+        if r[0] != 'ok':
+            if sol_key == 'dc':
+                out.notes.append(f'create_schematic base case does not run here: {r[1]!r}'); return
+            out.spec_fail(dict(op='create_schematic', fault='none', symptom='rejected', solution_section=section),
+                          f'a valid drawing-only description (solution section {sol_key}) is rejected', sol_key, impl=repr(r[1]))
+            continue
+        n = len(base['elements'])
+        for pos in range(n):
+            e = base['elements'][pos]
+            faults = [('unknown_kind', dict(e, type='nope'), 'UnknownCircuitElement'),
+                      ('missing_type', {k: v for k, v in e.items() if k != 'type'}, 'MissingArgument')]
+            if e['type'] in required:
+                k = required[e['type']]
+                faults.append(('missing_value_key', {kk: vv for kk, vv in e.items() if kk != k}, 'MissingArgument'))
+            for q in named_negative.get(e['type'], []):
+                faults.append(('negative', dict(e, **{q: -2}), 'IllegalElementValue'))
+            for fault, bad, exc in faults:
+                data = copy.deepcopy(base); data['elements'][pos] = bad
+                res = attempt(lambda: run(data))
+                out.evaluations += 1; out.count(f'fault:schematic_{fault}:{section}')
+                inp = dict(position=pos, fault=fault, element=str(bad), solution=sol_key)
+                if expect_raises(out, dict(op='create_schematic', fault=fault, solution_section=section),
+                                 f'a schematic description with fault {fault} at position {pos} (solution section {sol_key})', inp, res):
+                    # schemdraw's context manager redraws on exit and may mask the typed error of an
+                    # empty drawing (fault in the first element) with its own: look through the chain
+                    chain, ex = [], res[1]
+                    while ex is not None and len(chain) < 8:
+                        chain.append(type(ex).__name__); ex = ex.__context__ or ex.__cause__
+                    if exc not in chain:
+                        out.spec_fail(dict(op='create_schematic', fault=fault, symptom='wrong_exception', solution_section=section),
+                                      f'fault {fault} raises {chain}, the front end promises {exc}', inp)
+                    else:
+                        if chain[0] != exc: out.count('schematic_error_masked_by_schemdraw_exit')
+                        out.nontrivial(('schematic', fault, pos, section))
+        for fault, mut in (('multi_ground', lambda d: d['elements'].append({'type': 'ground'})),
+                           ('dup_id', lambda d: d['elements'][2].update(name='R'))):
+            data = copy.deepcopy(base); mut(data)
             res = attempt(lambda: run(data))
-            out.evaluations += 1; out.count('fault:schematic_' + fault)
-            inp = dict(position=pos, fault=fault, element=str(bad))
-            if expect_raises(out, dict(op='create_schematic', fault=fault), f'a schematic description with fault {fault} at position {pos}', inp, res):
-                # schemdraw's context manager redraws on exit and may mask the typed error of an
-                # empty drawing (fault in the first element) with its own: look through the chain
-                chain, ex = [], res[1]
-                while ex is not None and len(chain) < 8:
-                    chain.append(type(ex).__name__); ex = ex.__context__ or ex.__cause__
-                if exc not in chain:
-                    out.spec_fail(dict(op='create_schematic', fault=fault, symptom='wrong_exception'),
-                                  f'fault {fault} raises {chain}, the front end promises {exc}', inp)
-                else:
-                    if chain[0] != exc: out.count('schematic_error_masked_by_schemdraw_exit')
-                    out.nontrivial(('schematic', fault, pos))
-    for fault, mut in (('multi_ground', lambda d: d['elements'].append({'type': 'ground'})),
-                       ('dup_id', lambda d: d['elements'][2].update(name='R'))):
-        data = copy.deepcopy(base); mut(data)
+            out.evaluations += 1; out.count(f'fault:schematic_{fault}:{section}')
+            if expect_raises(out, dict(op='create_schematic', fault=fault, solution_section=section),
+                             f'a schematic description with fault {fault} (solution section {sol_key})', dict(fault=fault, solution=sol_key), res):
+                out.nontrivial(('schematic', fault, section))
+        data = copy.deepcopy(base); data['elements'][1]['R'] = 0
         res = attempt(lambda: run(data))
-        out.evaluations += 1; out.count('fault:schematic_' + fault)
-        if expect_raises(out, dict(op='create_schematic', fault=fault), f'a schematic description with fault {fault}', fault, res):
-            out.nontrivial(('schematic', fault))
-    data = copy.deepcopy(base); data['elements'][1]['R'] = 0
-    res = attempt(lambda: run(data))
-    out.evaluations += 1
-    if res[0] != 'ok':
-        out.spec_fail(dict(op='create_schematic', fault='zero', symptom='rejected'), 'R = 0 is rejected by the front end', 'R=0', impl=repr(res[1]))
+        out.evaluations += 1
+        if res[0] != 'ok':
+            out.spec_fail(dict(op='create_schematic', fault='zero', symptom='rejected', solution_section=section),
+                          'R = 0 is rejected by the front end', 'R=0', impl=repr(res[1]))
 
 def run(ctx, out):
     out.rule = ('fault classes {duplicate id, floating reference, two grounds, negative R/G/C/L/w/P/V_ref, value exactly 0, unknown '
@@ -632,6 +684,7 @@ def run(ctx, out):
                 '(entry point, fault, length, position)')
     check_networks(ctx, out)
     check_circuits(ctx, out)
+    check_analysis_faults(ctx, out)
     check_constructors(ctx, out)
     check_loaders(ctx, out)
     check_periodic_function(ctx, out)
